@@ -90,6 +90,12 @@ let show_ea_out = function
   | XRec b -> "rec" ^ hex_of_bytes b
   | XExport (true, b, n) -> "exp0:" ^ hex_of_bytes b ^ ":" ^ hex_of_n n
   | XExport (false, _, _) -> "exp-1:ENOMEM"
+(* get:pos:reclen addresses record (pos mod number of records); None when there is no record *)
+let reduce_get op cursize = match op with
+  | OGet (pos, reclen) ->
+    let n = N.div cursize reclen in
+    if n = N0 then None else Some (OGet (N.modulo pos n, reclen))
+  | _ -> Some op
 let show_ea_state = function
   | None -> "@none"
   | Some e -> (match ea_contents e with
@@ -101,6 +107,11 @@ let run_ea ops =
   List.iter (fun tok ->
     if !dead then () else
     let op = parse_ea_op tok in
+    let cursize = match !st with Some e -> e.ea_size | None -> N0 in
+    match (if !st = None then Some op else reduce_get op cursize) with
+    | None -> obs := ("norec" ^ show_ea_state !st) :: !obs;
+      caps := (match !st with None -> "-" | Some e -> hex_of_n e.ea_alloc) :: !caps; allocs := "-" :: !allocs
+    | Some op ->
     match discover (fun o -> r_ea_step op !st o) (fun (_, ev) -> ev) with
     | Ok (((out, st1), _), ev) ->
       heap_events ev;
@@ -123,7 +134,11 @@ let show_ideal = function
 let spec_ea ops flags =
   let st = ref None and obs = ref [] in
   List.iteri (fun i tok ->
-    let (out, st1) = ea_spec_step (parse_ea_op tok) !st (flag_at flags i) in
+    let cursize = match !st with Some l -> n_of_int (List.length l) | None -> N0 in
+    match (if !st = None then Some (parse_ea_op tok) else reduce_get (parse_ea_op tok) cursize) with
+    | None -> obs := ("norec" ^ show_ideal !st) :: !obs
+    | Some op ->
+    let (out, st1) = ea_spec_step op !st (flag_at flags i) in
     st := st1; obs := (show_ea_out out ^ show_ideal st1) :: !obs) ops;
   obs := "live=0" :: !obs;
   print_endline (String.concat ";" (List.rev !obs))
